@@ -70,6 +70,165 @@ theorem fetch_round_pull (items : List Item) (nb : Int) (hnb : 0 ≤ nb) (hwf : 
   have h := fetch_round_gen items nb hnb hwf hwm q hq e n
   exact pull_eq_run_all e q hwm _ (allWF_truncate _ _ (allWF_tokens _ nb (dropBefore_spec q hwf).1)) h.2.2.2.1
 
+/-! ### a log that is being appended to: a fetch answered from a prefix of the final layout is a fetch answered from the
+final layout with fewer bytes -/
+
+theorem truncate_full : ∀ (ts : List Tok) (n : Nat), totalSize ts ≤ n → truncate ts n = ts := by
+  intro ts
+  induction ts with
+  | nil => intro n _; rfl
+  | cons t ts ih =>
+    intro n h
+    simp only [totalSize] at h
+    have : t.size ≤ n := by omega
+    simp only [truncate, this, if_true]
+    rw [ih (n - t.size) (by omega)]
+
+theorem truncate_append_le : ∀ (x y : List Tok) (n : Nat), n ≤ totalSize x → (∀ t ts, y = t :: ts → 0 < t.size) →
+    truncate (x ++ y) n = truncate x n := by
+  intro x
+  induction x with
+  | nil =>
+    intro y n h hy
+    simp only [totalSize] at h
+    have hn : n = 0 := by omega
+    subst hn
+    cases y with
+    | nil => rfl
+    | cons t ts =>
+      have := hy t ts rfl
+      have ht : ¬ t.size ≤ 0 := by omega
+      simp [truncate, ht]
+  | cons t x ih =>
+    intro y n h hy
+    simp only [totalSize] at h
+    by_cases ht : t.size ≤ n
+    · simp only [List.cons_append, truncate, ht, if_true]
+      rw [ih y (n - t.size) (by omega) hy]
+    · simp only [List.cons_append, truncate, ht, if_false]
+
+theorem dropBefore_append (q : Int) : ∀ (a b : List Item),
+    dropBefore q (a ++ b) = if dropBefore q a = [] then dropBefore q b else dropBefore q a ++ b := by
+  intro a
+  induction a with
+  | nil => intro b; simp [dropBefore]
+  | cons x xs ih =>
+    intro b
+    by_cases hx : x.last < q
+    · simp only [List.cons_append, dropBefore, hx, if_true]; exact ih b
+    · simp only [List.cons_append, dropBefore, hx, if_false]; simp
+
+theorem allTokens_append (a b : List Item) : allTokens (a ++ b) = allTokens a ++ allTokens b := by
+  simp [allTokens]
+
+theorem totalSize_r2 : ∀ (recs : List (Int × Nat × Nat)), totalSize (recs.map fun (d, t, z) => Tok.r2 d t z) = sumSizes recs := by
+  intro recs
+  induction recs with
+  | nil => rfl
+  | cons x rs ih => obtain ⟨d, t, z⟩ := x; simp only [List.map_cons, totalSize, Tok.size, sumSizes, ih]
+
+/-- the tokens of an item add up to its size -/
+theorem tokensOf_size {nb : Int} {it : Item} {rest : List Item} (h : LWF nb (it :: rest)) : totalSize (tokensOf it) = it.size := by
+  cases it with
+  | b2 base last codec plen recs =>
+    simp only [LWF] at h
+    cases codec with
+    | true => simp [tokensOf, totalSize, Tok.size, Item.size]
+    | false =>
+      have := h.2.2.2.1 rfl
+      simp only [tokensOf, Bool.false_eq_true, if_false, totalSize, Tok.size, Item.size, totalSize_r2, this]
+  | m magic off tag size =>
+    simp only [LWF] at h
+    have := h.2.2.1
+    by_cases hm : magic = 1 <;> simp [tokensOf, totalSize, Tok.size, Item.size, hdr1Size, hm] at this ⊢ <;> omega
+  | w magic woff size inner =>
+    simp only [LWF] at h
+    have := h.2.2.2.1
+    by_cases hm : magic = 1 <;> simp [tokensOf, totalSize, Tok.size, Item.size, hdr1Size, hm] at this ⊢ <;> omega
+
+theorem totalSize_append (a b : List Tok) : totalSize (a ++ b) = totalSize a + totalSize b := by
+  induction a with
+  | nil => simp [totalSize]
+  | cons t ts ih => simp only [List.cons_append, totalSize, ih]; omega
+
+/-- a layout starts with a header: its first token is not empty -/
+theorem allTokens_head_pos : ∀ (items : List Item) (t : Tok) (ts : List Tok), allTokens items = t :: ts → 0 < t.size := by
+  intro items t ts h
+  cases items with
+  | nil => simp [allTokens] at h
+  | cons it rest =>
+    simp only [allTokens, List.flatMap_cons] at h
+    cases it with
+    | b2 base last codec plen recs =>
+      cases codec <;> simp only [tokensOf, Bool.false_eq_true, if_false, if_true, List.cons_append, List.cons.injEq] at h <;>
+        (rw [← h.1]; simp [Tok.size])
+    | m magic off tag size =>
+      simp only [tokensOf, List.cons_append, List.cons.injEq] at h
+      rw [← h.1]; simp only [Tok.size]; split <;> omega
+    | w magic woff size inner =>
+      simp only [tokensOf, List.cons_append, List.cons.injEq] at h
+      rw [← h.1]; simp only [Tok.size]; split <;> omega
+
+theorem lwf_take : ∀ (m : Nat) {items : List Item} {nb : Int}, LWF nb items → LWF nb (items.take m) := by
+  intro m
+  induction m with
+  | zero => intro items nb _; simp [LWF]
+  | succ m ih =>
+    intro items nb h
+    cases items with
+    | nil => simp [LWF]
+    | cons it rest =>
+      obtain ⟨_, _, h3⟩ := item_bounds h
+      have := ih h3
+      simp only [List.take_succ_cons]
+      cases it with
+      | b2 base last codec plen recs => simp only [LWF] at h ⊢; exact ⟨h.1, h.2.1, h.2.2.1, h.2.2.2.1, h.2.2.2.2.1, this⟩
+      | m magic off tag size => simp only [LWF] at h ⊢; exact ⟨h.1, h.2.1, h.2.2.1, this⟩
+      | w magic woff size inner => simp only [LWF] at h ⊢; exact ⟨h.1, h.2.1, h.2.2.1, h.2.2.2.1, this⟩
+
+/-- what a broker holding only the first `m` items serves is what a broker holding all of them serves, cut after some
+number `n` of bytes; and the first item served is whole in both views -/
+theorem serve_take (items : List Item) (nb : Int) (hwf : LWF nb items) (m : Nat) (q : Int) (b : Nat) :
+    ∃ n, serve (items.take m) q b = truncate (allTokens (dropBefore q items)) n ∧
+      (dropBefore q (items.take m) = [] → serve (items.take m) q b = []) ∧
+      (dropBefore q (items.take m) ≠ [] → ∀ it rest, dropBefore q items = it :: rest → it.size ≤ n) := by
+  have hsplit : items = items.take m ++ items.drop m := (List.take_append_drop m items).symm
+  have hdb := dropBefore_append q (items.take m) (items.drop m)
+  rw [← hsplit] at hdb
+  cases hsub : dropBefore q (items.take m) with
+  | nil =>
+    have hserve : serve (items.take m) q b = [] := by simp [serve, hsub, allTokens, serveBudget, truncate]
+    have htr : truncate (allTokens (dropBefore q items)) 0 = [] := by
+      cases hall : allTokens (dropBefore q items) with
+      | nil => rfl
+      | cons t ts =>
+        have := allTokens_head_pos _ t ts hall
+        have ht : ¬ t.size ≤ 0 := by omega
+        simp [truncate, ht]
+    exact ⟨0, by rw [hserve, htr], fun _ => hserve, fun h => absurd rfl h⟩
+  | cons it rest =>
+    rw [hsub] at hdb
+    simp only [List.cons_ne_nil, if_false] at hdb
+    have hwf1 : LWF nb (items.take m) := lwf_take m hwf
+    obtain ⟨d1, _, _, _⟩ := dropBefore_spec q hwf1
+    rw [hsub] at d1
+    have hsz := tokensOf_size d1
+    have htot : it.size ≤ totalSize (allTokens (it :: rest)) := by
+      simp only [allTokens, List.flatMap_cons, totalSize_append, hsz]; omega
+    refine ⟨min (serveBudget (it :: rest) b) (totalSize (allTokens (it :: rest))), ?_, fun h => (by cases h), ?_⟩
+    · simp only [serve, hsub]
+      rw [hdb, allTokens_append]
+      rw [truncate_append_le _ _ _ (Nat.min_le_right _ _) (allTokens_head_pos (items.drop m))]
+      by_cases hB : serveBudget (it :: rest) b ≤ totalSize (allTokens (it :: rest))
+      · rw [Nat.min_eq_left hB]
+      · rw [Nat.min_eq_right (by omega), truncate_full _ _ (by omega), truncate_full _ _ (Nat.le_refl _)]
+    · intro _ it' rest' h'
+      rw [hdb] at h'
+      simp only [List.cons_append, List.cons.injEq] at h'
+      rw [← h'.1]
+      have : it.size ≤ serveBudget (it :: rest) b := by simp only [serveBudget]; omega
+      exact Nat.le_min.mpr ⟨this, htot⟩
+
 theorem rstep_data_noop (cfg : RCfg) (s : RR) (hp : s.phase ≠ .reading) (d : List Rec) (off' : Int) (oc : Outcome) :
     rstep cfg s (.data d off' oc) = s := by
   unfold rstep
@@ -130,6 +289,23 @@ theorem world_good (cfg : RCfg) (items : List Item) (nb : Int) (hnb : 0 ≤ nb) 
       refine ⟨⟨f3, f1, f2, (f5 ?_).1⟩, f4⟩
       intro it rest hsub
       rw [hsub]; simp only [serveBudget]; omega
+    · right; simp only [worldEvent]; exact rstep_data_noop cfg s hr _ _ _
+  | fetchSnap m b hwm e =>
+    by_cases hr : s.phase = .reading
+    · left
+      simp only [worldEvent, Good]
+      obtain ⟨n, hn, hnil, hfirst⟩ := serve_take items nb hwf m s.connOff b
+      by_cases hsub : dropBefore s.connOff (items.take m) = []
+      · -- the reader is at the end of what is stored at this moment: nothing is served
+        rw [hnil hsub]
+        by_cases hh : hwm = s.connOff
+        · simp [Pull.readAll, hh]
+          exact ⟨by simp, by simp, by intro r _ h1 h2; omega, Int.le_refl _⟩
+        · simp [Pull.readAll, Pull.readHeader, hh]
+          exact ⟨by simp, by simp, by intro r _ h1 h2; omega, Int.le_refl _⟩
+      · rw [hn, fetch_round_pull items nb hnb hwf hwm s.connOff (hq hr) e n]
+        obtain ⟨f1, f2, f3, f4, f5⟩ := fetch_round_gen items nb hnb hwf hwm s.connOff (hq hr) e n
+        exact ⟨⟨f3, f1, f2, (f5 (hfirst hsub)).1⟩, f4⟩
     · right; simp only [worldEvent]; exact rstep_data_noop cfg s hr _ _ _
   | lost n hwm e =>
     by_cases hr : s.phase = .reading
@@ -381,14 +557,17 @@ theorem feed_resolve (log : List Rec) (o0 first last : Int) (hok : ∀ r ∈ log
     all_goals first | omega | exact Iff.rfl
   exact decide_eq_decide.mpr hiff
 
-/-- before the first successful `initialize` the loop's offset is the one it was started with; afterwards the resolved
-start offset selects the same stored records as that one (for LastOffset, −1, it depends on the broker's answer) -/
-structure SInv (log : List Rec) (o0 : Int) (s : RR) : Prop where
+/-- before the first successful `initialize` the loop's offset is the one it was started with (`o0`); afterwards the
+resolved start offset selects the same stored records as `from` — `o0` itself for an absolute offset or FirstOffset, the
+last offset the broker reports at that moment for LastOffset -/
+structure SInv (log : List Rec) (o0 : Int) («from» : Int) (s : RR) : Prop where
   unset : s.start = none → s.offset = o0
-  set : ∀ st, s.start = some st → o0 ≠ -1 → feed log st = feed log o0
+  set : ∀ st, s.start = some st → feed log st = feed log «from»
 
-theorem sinv_step (cfg : RCfg) {log : List Rec} {o0 : Int} {s : RR} (e : REv) (hi : RInv log s) (h : SInv log o0 s)
-    (hg : Good log s e) : SInv log o0 (rstep cfg s e) := by
+theorem sinv_step (cfg : RCfg) {log : List Rec} {o0 fr : Int} {s : RR} (e : REv) (hi : RInv log s) (h : SInv log o0 fr s)
+    (hg : Good log s e)
+    (hres : ∀ f l, e = .initOk f l → s.start = none → Good log s e → feed log (resolve o0 f l) = feed log fr) :
+    SInv log o0 fr (rstep cfg s e) := by
   have hnr : s.start = none → s.phase ≠ .reading := fun hs hr => (hi.conn hr).1 hs
   constructor
   · intro hs'
@@ -398,23 +577,29 @@ theorem sinv_step (cfg : RCfg) {log : List Rec} {o0 : Int} {s : RR} (e : REv) (h
       · rw [h3]; exact h.unset hs
       · exact absurd hs' h3
     · rw [h2] at hs'; cases hs'
-  · intro st hs' hne
+  · intro st hs'
     rcases rstep_start cfg s e with h1 | ⟨hs, f, l, he, h2⟩
-    · exact h.set st (by rw [← h1]; exact hs') hne
+    · exact h.set st (by rw [← h1]; exact hs')
     · rw [h2] at hs'
       cases hs'
-      subst he
-      simp only [Good] at hg
       rw [h.unset hs]
-      exact feed_resolve log o0 f l hg.2.2 hg.1 hne
+      exact hres f l he hs hg
 
 end KV.C02
 
 namespace KV.C02
 
-theorem winv_run (cfg : RCfg) (items : List Item) (nb : Int) (hnb : 0 ≤ nb) (hwf : LWF nb items) (o0 : Int) :
-    ∀ (xs : List Env) (s : RR), RInv (allRecords items) s → SInv (allRecords items) o0 s → (∀ x ∈ xs, x.ok items) →
-      RInv (allRecords items) (worldRun cfg items s xs) ∧ SInv (allRecords items) o0 (worldRun cfg items s xs) := by
+/-- for an absolute start offset or FirstOffset the resolution does not change which records are selected -/
+theorem sinv_res_abs {log : List Rec} {s : RR} {o0 : Int} (hne : o0 ≠ -1) :
+    ∀ (e : REv) f l, e = .initOk f l → s.start = none → Good log s e → feed log (resolve o0 f l) = feed log o0 := by
+  intro e f l he _ hg
+  subst he
+  simp only [Good] at hg
+  exact feed_resolve log o0 f l hg.2.2 hg.1 hne
+
+theorem winv_run (cfg : RCfg) (items : List Item) (nb : Int) (hnb : 0 ≤ nb) (hwf : LWF nb items) (o0 : Int) (hne : o0 ≠ -1) :
+    ∀ (xs : List Env) (s : RR), RInv (allRecords items) s → SInv (allRecords items) o0 o0 s → (∀ x ∈ xs, x.ok items) →
+      RInv (allRecords items) (worldRun cfg items s xs) ∧ SInv (allRecords items) o0 o0 (worldRun cfg items s xs) := by
   intro xs
   induction xs with
   | nil => intro s h1 h2 _; exact ⟨h1, h2⟩
@@ -423,19 +608,19 @@ theorem winv_run (cfg : RCfg) (items : List Item) (nb : Int) (hnb : 0 ≤ nb) (h
     have hxo := hx x (by simp)
     refine ih _ (rinv_world_step cfg items nb hnb hwf h1 x hxo) ?_ (fun y hy => hx y (by simp [hy]))
     rcases world_good cfg items nb hnb hwf h1 x hxo with hg | he
-    · exact sinv_step cfg _ h1 h2 hg
+    · exact sinv_step cfg _ h1 h2 hg (sinv_res_abs hne _)
     · rw [he]; exact h2
 
 /-- the loop started at `o0` (an absolute offset or FirstOffset) pushes an initial segment of `feed log o0` -/
 theorem world_msgs_prefix (cfg : RCfg) (items : List Item) (nb : Int) (hnb : 0 ≤ nb) (hwf : LWF nb items) (o0 : Int)
     (ho : -2 ≤ o0) (hne : o0 ≠ -1) (xs : List Env) (hx : ∀ x ∈ xs, x.ok items) :
     (worldRun cfg items { offset := o0 } xs).msgs <+: feed (allRecords items) o0 := by
-  obtain ⟨h1, h2⟩ := winv_run cfg items nb hnb hwf o0 xs { offset := o0 } (rinv_init _ o0 ho)
+  obtain ⟨h1, h2⟩ := winv_run cfg items nb hnb hwf o0 hne xs { offset := o0 } (rinv_init _ o0 ho)
     ⟨fun _ => rfl, fun st hs => by cases hs⟩ hx
   cases hs : (worldRun cfg items { offset := o0 } xs).start with
   | none => rw [(h1.nostart hs).1]; exact List.nil_prefix
   | some st =>
-    rw [← h2.set st hs hne]
+    rw [← h2.set st hs]
     exact loop_msgs_prefix (allRecords_sorted items nb hnb hwf) h1 st hs
 
 end KV.C02
